@@ -96,7 +96,7 @@ def run_fit_image(image, geom_args, kwargs, script=None, minit=10, record_steps=
     from photutils.isophote.geometry import EllipseGeometry
     from photutils.isophote.isophote import Isophote
 
-    calls, stream, steps = [], [], []
+    calls, stream, steps, fixflags = [], [], [], []
     pending = list(script) if script is not None else None
     real_fitter = ell.EllipseFitter
 
@@ -105,6 +105,9 @@ def run_fit_image(image, geom_args, kwargs, script=None, minit=10, record_steps=
             self._sample = sample
 
         def fit(self, **kw):
+            # the fix flags every fitter call receives (geometry.fix of the sample it is handed)
+            fixflags.append(('fitter', float(self._sample.geometry.sma),
+                             tuple(bool(v) for v in self._sample.geometry.fix)))
             if pending is not None:
                 if not pending:
                     raise _Starved()
@@ -174,6 +177,9 @@ def run_fit_image(image, geom_args, kwargs, script=None, minit=10, record_steps=
             with np.errstate(all='ignore'):
                 isolist = RecEllipse(image, geometry).fit_image(minit=minit, **kwargs)
         isos = [(float(i.sma), int(i.stop_code), bool(i.valid)) for i in isolist]
+        # ... and the flags every returned isophote carries (non-iterative ones never see a fitter)
+        fixflags += [('isophote', float(i.sma), tuple(bool(v) for v in i.sample.geometry.fix))
+                     for i in isolist if i.sma > 0]
     except IndexError:
         kind = 1
     except _Starved:
@@ -192,7 +198,7 @@ def run_fit_image(image, geom_args, kwargs, script=None, minit=10, record_steps=
     steps = [s for s in steps if 'gn' in s]        # a step whose update() raised has no 'gn'
     for s in steps:
         s.pop('new')
-    return dict(kind=kind, isos=isos, calls=calls, stream=stream, steps=steps, exc=exc,
+    return dict(kind=kind, isos=isos, calls=calls, stream=stream, steps=steps, exc=exc, fixflags=fixflags,
                 isolist=isolist, untouched=bool(np.array_equal(image, img0)), geometry=geometry)
 
 
@@ -336,12 +342,34 @@ def describe_sched(p):
 # --------------------------------------------------------------------------
 # real fits
 # --------------------------------------------------------------------------
-def gen_real(rng, thorough=False):
+def gen_real(rng, thorough=False, force=None):
+    """One real fit.  `force` selects a structured family that must occur in every run:
+    'wide' / 'tall' (frame aspect 1:2-1:3 with the galaxy centre beyond the shorter dimension along the
+    long axis, nothing fixed, bilinear: for the model image), 'fix-offframe' / 'fix-maxrit' / 'fix-none'
+    (a fix_* request whose value differs from the truth, with an outward pass that ends non-iteratively
+    beyond the frame / beyond maxrit / with maxsma=None)."""
     size = rng.choice([64, 72, 80] + ([96, 112] if thorough else []))
-    ny, nx = size, size + rng.choice([0, 0, 8, -8])
-    x0 = nx / 2 + rng.uniform(-nx / 8, nx / 8)
-    y0 = ny / 2 + rng.uniform(-ny / 8, ny / 8)
+    shape = rng.random()
+    if force in ('wide', 'tall') or (force is None and shape > 0.6):
+        # frame aspect ratios from 1:3 to 3:1
+        long = int(size * rng.choice([1.5, 2.0, 2.5, 3.0] if force is None else [2.0, 2.5, 3.0]))
+        tall = (force == 'tall') or (force is None and rng.random() < 0.5)
+        ny, nx = (long, size) if tall else (size, long)
+    else:
+        ny, nx = size, size + rng.choice([0, 0, 8, -8])
+    # centre anywhere well inside the frame (at least 3/8 of the short side from every edge)
+    m = 0.375 * size
+    x0 = rng.uniform(m, nx - 1 - m)
+    y0 = rng.uniform(m, ny - 1 - m)
+    if force == 'wide':
+        x0 = rng.uniform(ny + 4, nx - 1 - m)        # beyond min(ny, nx) along the long axis
+        y0 = ny / 2 + rng.uniform(-size / 16, size / 16)
+    if force == 'tall':
+        y0 = rng.uniform(nx + 4, ny - 1 - m)
+        x0 = nx / 2 + rng.uniform(-size / 16, size / 16)
     eps = rng.choice([0.05, 0.1, 0.2, 0.3, 0.4, 0.5, 0.6, 0.7, 0.8, rng.uniform(0.05, 0.8)])
+    if force is not None:
+        eps = rng.choice([0.2, 0.3, 0.4, 0.5])
     pa = rng.choice([0.0, math.pi / 2, math.pi / 4, 3 * math.pi / 4, rng.uniform(0, math.pi),
                      rng.uniform(0, math.pi), rng.uniform(0, math.pi)])
     law = rng.choice(['sersic1', 'sersic1', 'sersic2', 'sersic4', 'gauss'])
@@ -351,27 +379,76 @@ def gen_real(rng, thorough=False):
     sma0 = rng.choice([6.0, 8.0, 10.0, rng.uniform(5, 12)])
     sma0 = max(sma0, 2.5 / (1.0 - eps))             # the first ellipse is itself resolved (semi-minor axis >= 2.5)
     minsma = rng.choice([0.0, 0.0, 2.0, 3.0, sma0 - 0.3, sma0 * 0.93])
-    maxsma = rng.choice([None, size / 4, size / 3, size / 3.5])
+    if force in ('wide', 'tall'):
+        lin, step, minsma = False, 0.1, 0.0         # a long list, so that the model image has a region to test
+    # outward pass: unbounded (ends on failures), bounded inside the frame, bounded BEYOND the frame (fits
+    # fail on off-frame ellipses, the tail is extracted non-iteratively), or non-iterative beyond maxrit
+    maxrit = None
+    out = rng.choice(['none', 'in', 'in', 'in', 'off', 'maxrit'])
+    out = {'fix-offframe': 'off', 'fix-maxrit': 'maxrit', 'fix-none': 'none', 'wide': 'in', 'tall': 'in'}.get(force, out)
+    if out == 'none':
+        maxsma = None
+    elif out == 'in':
+        maxsma = rng.choice([size / 4, size / 3, size / 3.5])
+    elif out == 'off':
+        maxsma = rng.choice([0.8, 1.0]) * size
+    else:
+        maxsma, maxrit = size / 3, size / 5
     fixes = rng.choice([(False, False, False)] * 4 + [(True, False, False), (False, True, False),
                                                       (False, False, True), (True, True, False),
                                                       (False, True, True), (True, False, True)])
-    # initial geometry within the basin of convergence; fixed parameters start at the truth
+    if force in ('wide', 'tall'):
+        fixes = (False, False, False)
+    elif force is not None:
+        fixes = rng.choice([(True, False, False), (False, True, False), (False, False, True),
+                            (True, True, False), (False, True, True), (True, False, True)])
+    # initial geometry within the basin of convergence
     # the basin shrinks with the semi-minor axis of the first ellipse: offsets of the centre stay below
     # a quarter of it (at most 1.5 pixel), those of the PA below what moves the tip by a quarter of it
     b0 = sma0 * (1.0 - eps)
     dmax = min(1.5, 0.25 * b0)
     amax = min(0.35, 0.25 * (1.0 - eps) / max(eps, 0.1))
-    gx = x0 if fixes[0] else x0 + rng.uniform(-dmax, dmax)
-    gy = y0 if fixes[0] else y0 + rng.uniform(-dmax, dmax)
-    gpa = pa if fixes[1] else (pa + rng.uniform(-amax, amax))
-    geps = eps if fixes[2] else min(0.85, max(0.05, eps + rng.uniform(-0.15, 0.15)))
-    if fixes[0] and rng.random() < 0.5:
+    # a fixed parameter is requested either at the truth (then the other parameters must be recovered) or at
+    # a value deliberately DIFFERENT from the truth (then a parameter that is silently freed visibly moves)
+    off = (force is not None and force.startswith('fix')) or rng.random() < 0.5
+
+    def away(lo, hi):
+        return rng.choice([-1, 1]) * rng.uniform(lo, hi)
+    if fixes[0]:
+        gx, gy = (x0 + away(0.4 * dmax, dmax), y0 + away(0.4 * dmax, dmax)) if off else (x0, y0)
+    else:
+        gx, gy = x0 + rng.uniform(-dmax, dmax), y0 + rng.uniform(-dmax, dmax)
+    if fixes[1]:
+        gpa = pa + away(0.4 * amax, amax) if off else pa
+    else:
+        gpa = pa + rng.uniform(-amax, amax)
+    if fixes[2]:
+        geps = min(0.85, max(0.05, eps + away(0.04, 0.08))) if off else eps
+    else:
+        geps = min(0.85, max(0.05, eps + rng.uniform(-0.15, 0.15)))
+    if fixes[0] and not off and rng.random() < 0.5:
         gx, gy = float(round(gx)), float(round(gy))          # exact-lattice fixed centre
         x0, y0 = gx, gy
     integr = rng.choice(['bilinear', 'bilinear', 'bilinear', 'nearest_neighbor', 'mean', 'median'])
+    if force is not None:
+        integr = 'bilinear'
     return dict(ny=ny, nx=nx, x0=x0, y0=y0, eps=eps, pa=pa, law=law, scale=scale, lin=lin, step=step,
-                sma0=sma0, gsma=sma0, minsma=minsma, maxsma=maxsma, maxrit=None, fixes=fixes,
+                sma0=sma0, gsma=sma0, minsma=minsma, maxsma=maxsma, maxrit=maxrit, fixes=fixes,
                 g=(gx, gy, gpa, geps), integr=integr, lin_arg=True)
+
+
+def fixed_at_truth(p):
+    gx, gy, gpa, geps = p['g']
+    return ((not p['fixes'][0] or (gx == p['x0'] and gy == p['y0'])) and (not p['fixes'][1] or gpa == p['pa'])
+            and (not p['fixes'][2] or geps == p['eps']))
+
+
+def fixflag_oracle(p, obs):
+    """Every fitter call and every returned isophote (sma > 0) carries exactly the requested fix flags
+    [fix_center, fix_center, fix_pa, fix_eps] (all False when nothing is requested)."""
+    want = (p['fixes'][0], p['fixes'][0], p['fixes'][1], p['fixes'][2])
+    return [f'{where} at sma {sma}: geometry.fix = {list(fl_)} but {list(want)} was requested'
+            for where, sma, fl_ in obs['fixflags'] if fl_ != want]
 
 
 def run_real(p, record_steps=True):
@@ -385,6 +462,9 @@ def run_real(p, record_steps=True):
     obs['image'] = img
     return obs
 
+
+# structured families generated in every run (see gen_real)
+FORCED_REAL = ['wide', 'tall', 'fix-offframe', 'fix-maxrit', 'fix-none']
 
 # inputs that once exposed a defect; run first in every tier
 PINNED_REAL = [
@@ -422,11 +502,16 @@ MODEL_MEDIAN_TOL = 0.03      # observed on the repaired tree: median <= 0.016, 9
 MODEL_P90_TOL = 0.10
 
 
+MODEL_COVERAGE_TOL = 0.99    # fraction of the region that the model fills (observed: 1.0)
+
+
 def model_residual(p, obs):
-    """|build_ellipse_model - image| / image on the pixels well inside the fitted region (elliptical
-    radius between max(5 pixels, smallest fitted sma + 1) and 0.8 x the largest fitted sma, at most 3 scale
-    radii, model filled,
-    profile resolved by the pixel grid)."""
+    """build_ellipse_model against the image on the pixels well inside the fitted region: elliptical radius
+    between max(5 pixels, smallest fitted sma + 1) and 0.8 x min(largest fitted sma, 3 scale radii, distance
+    of the centre to the nearest frame edge - 1) (build_ellipse_model abandons an ellipse at its first sample
+    outside the frame, so only ellipses that lie inside the frame count), profile resolved by the pixel grid.
+    Returns (relative residuals on the filled pixels of the region, filled fraction of the region) or None
+    when the region has fewer than 50 pixels."""
     from photutils.isophote import build_ellipse_model
     with warnings.catch_warnings():
         warnings.simplefilter('ignore')
@@ -438,16 +523,18 @@ def model_residual(p, obs):
     yr = -dx * math.sin(p['pa']) + dy * math.cos(p['pa'])
     r = np.sqrt(xr ** 2 + (yr / (1 - p['eps'])) ** 2)
     smas = [s for s, _, _ in obs['isos']]
-    inside = (r > max(5.0, min(smas) + 1.0)) & (r < 0.8 * min(max(smas), 3 * p['scale'])) & (model != 0)
+    edge = min(p['x0'], p['y0'], p['nx'] - 1 - p['x0'], p['ny'] - 1 - p['y0'])
+    region = (r > max(5.0, min(smas) + 1.0)) & (r < 0.8 * min(max(smas), 3 * p['scale'], edge - 1.0))
     # well-sampled pixels only (same rule as for the isophotes): logarithmic slope along the minor axis
     # at most 0.5 per pixel
     f = radial(p['law'], p['scale'])
     rr = np.maximum(r, 1.0)
     slope = np.abs(np.log(f(rr * 1.01)) - np.log(f(rr))) / (0.01 * rr) / (1.0 - p['eps'])
-    inside &= slope <= 0.5
-    if inside.sum() < 50:
+    region &= slope <= 0.5
+    if region.sum() < 50:
         return None
-    return np.abs(model[inside] - img[inside]) / img[inside]
+    inside = region & (model != 0)
+    return np.abs(model[inside] - img[inside]) / img[inside], float(inside.sum()) / float(region.sum())
 
 
 def angdiff(a, b):
@@ -683,10 +770,14 @@ def run(ctx):
         'convergence inside the basin (support:convergence_rate): at least 60 % of the well-sampled radii of the '
         'non-nearest-neighbour fits end with stop code 0 (observed ~ 90-99 %); an empty result counts as 8 failures',
         'build_ellipse_model reproduces the image inside the fitted region: spline numerics, tested only '
-        '(support:model_image; median relative residual <= 3 %, 90th percentile <= 10 %)',
+        '(support:model_image; frames of aspect 1:3 to 3:1 with the galaxy centred beyond the shorter dimension; '
+        'the region of ellipses inside the frame must be filled to >= 99 %, median relative residual <= 3 %, 90th '
+        'percentile <= 10 %)',
         'fixed parameters: proved of the fitter model for the whole iteration (fixed_params_kept; fixed eps for a '
-        'start eps > 0); fix_geometry / non-iterative paths are tested only: on real fits every fix_* request is '
-        'compared exactly with every returned isophote',
+        'start eps > 0); fix_geometry / non-iterative paths are tested only: on real fits every fix_* request (at '
+        'the truth or deliberately away from it; outward pass unbounded / bounded / ending non-iteratively beyond '
+        'the frame or beyond maxrit) is compared exactly with every returned isophote of both passes, and every '
+        'fitter call and returned isophote must carry the requested geometry.fix flags (scripted runs too)',
         'sma_schedule: partial correctness (returns) and outcome-stream premise invalid => code 3',
         '_fix_last_isophote geometry source (previous isophote outwards, first isophote inwards): tested on real '
         'fits only',
@@ -724,6 +815,10 @@ def run(ctx):
         if hyp:
             for sig, msg in sched_oracle(p, obs):
                 ctx.violation('Ellipse.fit_image:' + sig, msg, describe_sched(p))
+        ff = fixflag_oracle(p, obs) if not all(p['fixes']) else []
+        if ff:
+            ctx.violation('Ellipse.fit_image:fix-flags-lost', f'{len(ff)} fitter calls / isophotes lost the '
+                          f'requested fix flags, e.g. {ff[0]}', describe_sched(p))
     ctx.sample({'scripted_case': describe_sched(meta[3][1]), 'impl': {k: meta[3][2][k] for k in ('kind', 'isos', 'calls')}})
 
     _t(ctx, 'scripted')
@@ -731,12 +826,25 @@ def run(ctx):
     n_real = 40 if quick else 300
     all_steps = []
     conv = [0, 0]
-    for j in range(len(PINNED_REAL) + n_real):
+    forced = list(FORCED_REAL) * (1 if quick else 4)
+    for j in range(len(PINNED_REAL) + len(forced) + n_real):
         if j < len(PINNED_REAL):
             p = dict(PINNED_REAL[j])
             ctx.stat('real', 'pinned')
+        elif j < len(PINNED_REAL) + len(forced):
+            p = gen_real(ctx.rng, thorough=not quick, force=forced[j - len(PINNED_REAL)])
+            ctx.stat('real', 'structured:' + forced[j - len(PINNED_REAL)])
         else:
             p = gen_real(ctx.rng, thorough=not quick)
+        ctx.stat('real', 'frame:' + ('near-square' if max(p['ny'], p['nx']) < 1.3 * min(p['ny'], p['nx']) else
+                                     'tall' if p['ny'] > p['nx'] else 'wide'))
+        if (p['nx'] > p['ny'] and p['x0'] > p['ny']) or (p['ny'] > p['nx'] and p['y0'] > p['nx']):
+            ctx.stat('real', 'centre-beyond-shorter-dimension')
+        ctx.stat('real', 'outward:' + ('maxrit<maxsma' if p['maxrit'] else 'maxsma=None' if p['maxsma'] is None else
+                                       'maxsma-beyond-frame' if p['maxsma'] > 0.6 * min(p['ny'], p['nx']) else
+                                       'maxsma-inside-frame'))
+        if any(p['fixes']):
+            ctx.stat('real', 'fixed-value:' + ('truth' if fixed_at_truth(p) else 'away-from-truth'))
         obs = run_real(p)
         ctx.count_case(describe_real(p), True)
         if obs['kind'] == 4:
@@ -764,15 +872,26 @@ def run(ctx):
         ctx.stat('real', 'stop-code-5-isophotes', sum(1 for _, c, _ in obs['isos'] if c == 5))
         if fg:
             ctx.violation('correspondence:_fix_last_isophote.geometry', fg[0], describe_real(p), found_input=False)
+        ff = fixflag_oracle(p, obs)
+        if ff:
+            ctx.violation('Ellipse.fit_image:fix-flags-lost', f'{len(ff)} fitter calls / isophotes lost the '
+                          f'requested fix flags, e.g. {ff[0]}', describe_real(p))
+        if any(c == 4 for _, c, _ in obs['isos']):
+            ctx.stat('real', 'non-iterative-isophotes-returned')
         bad = fixed_honoured(p, obs)
         if bad:
             ctx.violation('Ellipse.fit_image:fixed-parameter-changed',
                           f'a fixed parameter differs from the requested value: {bad[:3]}', describe_real(p))
-        n, gross, worst = recovery(p, obs)
+        if not fixed_at_truth(p):
+            # a parameter fixed away from the truth biases the others: only the schedule, the fix flags and
+            # the exact fixed values are checked on this fit
+            n, gross, worst = 0, [], dict(radii=0)
+        else:
+            n, gross, worst = recovery(p, obs)
         ctx.support('recovery_well_sampled', n)
         ctx.stat('real', 'well-sampled-isophotes', n)
         radii = worst.pop('radii')
-        if not obs['isos']:
+        if not obs['isos'] and fixed_at_truth(p):
             # "No meaningful fit was possible" although the initial geometry is inside the basin of
             # convergence: counted as 8 well-sampled radii that did not converge
             ctx.stat('real', 'returned-empty')
@@ -833,23 +952,33 @@ def run(ctx):
 
     _t(ctx, 'real')
     # ---- model image / misc support (few: slow) ----------------------------------------
-    done = 0
-    for kind, p, obs in meta:
-        if kind != 'real' or obs['kind'] != 0 or len(obs['isos']) < 12 or p['integr'] != 'bilinear' or any(p['fixes']):
-            continue
-        if done >= (3 if quick else 12):
-            break
-        done += 1
+    def beyond(p):
+        return (p['nx'] > p['ny'] and p['x0'] > p['ny']) or (p['ny'] > p['nx'] and p['y0'] > p['nx'])
+    elig = [(p, obs) for kind, p, obs in meta
+            if kind == 'real' and obs['kind'] == 0 and len(obs['isos']) >= 12 and p['integr'] == 'bilinear'
+            and not any(p['fixes'])]
+    # galaxies centred beyond the shorter frame dimension first (image axes must not be interchangeable)
+    elig = [e for e in elig if beyond(e[0])][:(3 if quick else 10)] + [e for e in elig if not beyond(e[0])][:(3 if quick else 10)]
+    for p, obs in elig:
         try:
-            rel = model_residual(p, obs)
+            res = model_residual(p, obs)
         except Exception as e:                       # spline failures are numerics
             ctx.stat('model_image', 'raised:' + type(e).__name__)
             continue
-        if rel is None:
+        if res is None:
+            ctx.stat('model_image', 'region-too-small')
+            continue
+        rel, coverage = res
+        ctx.stat('model_image', 'centre-beyond-shorter-dimension' if beyond(p) else 'centre-within-shorter-dimension')
+        d = ctx.cov['correspondence'].setdefault('model_image', {})
+        d['least_filled_fraction'] = min(d.get('least_filled_fraction', 1.0), round(coverage, 5))
+        if coverage < MODEL_COVERAGE_TOL:
+            ctx.violation('build_ellipse_model:coverage', f'only {100 * coverage:.1f} % of the pixels inside the fitted '
+                          f'region (ellipses entirely inside the {p["ny"]}x{p["nx"]} frame) are filled by the model',
+                          describe_real(p))
             continue
         med, p90 = float(np.median(rel)), float(np.percentile(rel, 90))
         ctx.support('model_image', int(rel.size))
-        d = ctx.cov['correspondence'].setdefault('model_image', {})
         d['worst_median_rel_residual'] = max(d.get('worst_median_rel_residual', 0.0), round(med, 5))
         d['worst_p90_rel_residual'] = max(d.get('worst_p90_rel_residual', 0.0), round(p90, 5))
         if med > MODEL_MEDIAN_TOL or p90 > MODEL_P90_TOL:
@@ -963,8 +1092,21 @@ def replay(obj):
             bad.append('image modified')
         if obs['kind'] == 4:
             bad.append('fit_image raised ' + str(obs['exc']))
+        if obs['kind'] == 0 and not all(p['fixes']):
+            bad += fixflag_oracle(p, obs)[:2]
         if mode == 'real' and obs['kind'] == 0:
             bad += [str(b) for b in fixed_honoured(p, obs)]
-            bad += [str(g) for g in recovery(p, obs)[1]]
+            if fixed_at_truth(p):
+                bad += [str(g) for g in recovery(p, obs)[1]]
+            if len(obs['isos']) >= 12 and p['integr'] == 'bilinear' and not any(p['fixes']):
+                res = model_residual(p, obs)
+                if res is not None:
+                    rel, coverage = res
+                    med, p90 = float(np.median(rel)), float(np.percentile(rel, 90))
+                    print(f'model image: filled fraction {coverage:.3f}, median residual {med:.4f}, p90 {p90:.4f}')
+                    if coverage < MODEL_COVERAGE_TOL:
+                        bad.append(f'model image fills only {coverage:.3f} of the fitted region')
+                    elif med > MODEL_MEDIAN_TOL or p90 > MODEL_P90_TOL:
+                        bad.append(f'model image residual median {med:.3f} p90 {p90:.3f}')
     print('property holds on this input' if not bad else f'property FAILS on this input: {bad[:3]}')
     return 0 if not bad else 1
